@@ -229,7 +229,10 @@ def import_verdicts(prog, rep, dep_pid, rules, as_rule, why):
             lifted += 1
             rep.fail(as_rule, "%s:%s" % (dep_pid, i["key"]), "[%s %s] %s" % (dep_pid, i["rule"], i.get("detail", "")), i.get("where", ""),
                      witness=i.get("witness", ""))
-    if err is not None and not lifted:
+    decided = set(i["rule"] for i in sub.items if i["rule"] in rules)
+    if err is not None and not lifted and (not all(r in decided for r in rules) or any(("rule %s " % r) in str(err) for r in rules)):
+        # the dependency stopped before it got to (all of) the imported rules; when it stopped later, over something else, what it
+        # established about these rules stands
         from .model import AnalysisError
         raise AnalysisError("%s (imported by %s) stopped: %s" % (dep_pid, rep.pid, str(err)[:160]))
     if not lifted:
